@@ -29,24 +29,57 @@ type FreeOpts struct {
 // RunFree executes the scenario with nothing gated and no hooks installed: sender, receiver, cancel watcher, the
 // scripted server and the environment run as the Go scheduler lets them. It reports only the outcome.
 func RunFree(sc Scenario, fo FreeOpts) (Event, error) {
-	r := &runner{sc: sc, ver: 1, park: map[string]*parked{}, exited: map[string]bool{}, gone: map[string]bool{}, versions: map[int]contents{},
-		lastID: map[string]int{}, doneCh: make(chan error, 1), free: true}
-	r.cond = sync.NewCond(&r.mu)
-	r.conn = simconn.New()
-	r.caller = &manualCtx{done: make(chan struct{}), deadline: fo.FarDeadline}
-	rng := rand.New(rand.NewSource(fo.Seed))
+	evs, err := RunFreeSession([]Scenario{sc}, []FreeOpts{fo})
+	if err != nil {
+		return nil, err
+	}
+	return evs[0], nil
+}
+
+// RunFreeSession runs several requests one after the other on ONE client (one connection): the result columns the
+// caller binds are the same objects in every request, a request may start on a client an earlier one left closed.
+// Compression, revision and instrumentation are those of the first scenario.
+func RunFreeSession(scs []Scenario, fos []FreeOpts) ([]Event, error) {
+	sc0 := scs[0]
+	conn := simconn.New()
 	comp := map[string]ch.Compression{"disabled": ch.CompressionDisabled, "none": ch.CompressionNone, "lz4": ch.CompressionLZ4,
-		"lz4hc": ch.CompressionLZ4HC, "zstd": ch.CompressionZSTD}[sc.Compression]
+		"lz4hc": ch.CompressionLZ4HC, "zstd": ch.CompressionZSTD}[sc0.Compression]
 	var hello proto.Buffer
-	(&proto.ServerHello{Name: "VerifServer", Major: 23, Minor: 8, Revision: sc.Rev, Timezone: "UTC", DisplayName: "verif", Patch: 1}).EncodeAware(&hello, proto.Version)
-	r.conn.Deliver(hello.Buf)
+	(&proto.ServerHello{Name: "VerifServer", Major: 23, Minor: 8, Revision: sc0.Rev, Timezone: "UTC", DisplayName: "verif", Patch: 1}).EncodeAware(&hello, proto.Version)
+	conn.Deliver(hello.Buf)
 	hctx, hcancel := context.WithTimeout(context.Background(), 10*time.Second)
-	cl, err := ch.Connect(hctx, r.conn, ch.Options{Compression: comp, ReadTimeout: 2 * time.Millisecond, OpenTelemetryInstrumentation: sc.Otel})
+	cl, err := ch.Connect(hctx, conn, ch.Options{Compression: comp, ReadTimeout: 2 * time.Millisecond, OpenTelemetryInstrumentation: sc0.Otel})
 	hcancel()
 	if err != nil {
 		return nil, fmt.Errorf("connect: %w", err)
 	}
+	var out []Event
+	var prev *runner
+	for k, sc := range scs {
+		sc.Compression, sc.Rev, sc.Otel = sc0.Compression, sc0.Rev, sc0.Otel
+		ev, r := runFreeOn(conn, cl, prev, sc, fos[k], k == len(scs)-1)
+		ev["seq"] = k + 1
+		ev["of"] = len(scs)
+		out = append(out, ev)
+		prev = r
+	}
+	_ = cl.Close()
+	return out, nil
+}
+
+func runFreeOn(conn *simconn.Conn, cl *ch.Client, prev *runner, sc Scenario, fo FreeOpts, last bool) (Event, *runner) {
+	r := &runner{sc: sc, ver: 1, park: map[string]*parked{}, exited: map[string]bool{}, gone: map[string]bool{}, versions: map[int]contents{},
+		lastID: map[string]int{}, doneCh: make(chan error, 1), free: true}
+	r.cond = sync.NewCond(&r.mu)
+	r.conn = conn
 	r.cl = cl
+	if prev != nil {
+		// the caller binds the same result columns again: they still hold what the previous request left in them
+		r.resX, r.resY = prev.resX, prev.resY
+	}
+	r.caller = &manualCtx{done: make(chan struct{}), deadline: fo.FarDeadline}
+	rng := rand.New(rand.NewSource(fo.Seed))
+	startClosed := cl.IsClosed()
 	rev := cl.ServerInfo().Revision
 	if rev > proto.Version {
 		rev = proto.Version
@@ -179,7 +212,15 @@ func RunFree(sc Scenario, fo FreeOpts) (Event, error) {
 	if ca := cancelAt.Load(); ca > 0 && returnedAt > 0 {
 		out["afterCancelMs"] = int((returnedAt - ca) / 1e6)
 	}
-	if fo.PingAfter && !cl.IsClosed() {
+	r.newTokens()
+	wire := []Token{}
+	for _, t := range r.tokens {
+		wire = append(wire, Token{K: t.K, V: t.V})
+	}
+	out["wire"] = wire
+	out["wroteBytes"] = len(r.conn.Snap().Written) - r.base
+	out["startClosed"] = startClosed
+	if fo.PingAfter && last && !cl.IsClosed() {
 		var pong proto.Buffer
 		proto.ServerCodePong.Encode(&pong)
 		r.conn.Deliver(pong.Buf)
@@ -187,6 +228,5 @@ func RunFree(sc Scenario, fo FreeOpts) (Event, error) {
 		out["ping"] = classOf(cl.Ping(pctx))
 		pcancel()
 	}
-	_ = cl.Close()
-	return out, nil
+	return out, r
 }
